@@ -60,8 +60,8 @@ def layout(text, t):
     flags = set()
     for ch in text:
         if ch in "()":
-            pre = ["", "", "", "", "", " ", "\t", "\n", "\r\n", " ; c (x\n", "  ", ";\n"][t.draw(12)]
-            post = ["", "", "", "", "", " ", "\t", "\n", " ;; nöte )\n", "\r\n", "\t ", " ;(\n"][t.draw(12)]
+            pre = ["", "", "", "", "", " ", "\t", "\n", "\r\n", " ; c (x\n", "  ", ";\n", ";c\r\n"][t.draw(13)]
+            post = ["", "", "", "", "", " ", "\t", "\n", " ;; nöte )\n", "\r\n", "\t ", " ;(\n", ";)\n"][t.draw(13)]
             for s in (pre, post):
                 if ";" in s:
                     flags.add("comment")
@@ -71,7 +71,8 @@ def layout(text, t):
                     flags.add("crlf")
             out.append(pre + ch + post)
         elif ch == " ":
-            s = [" ", " ", " ", " ", "  ", "\t", "\n", " ;k\n", "\r\n", "\t\t"][t.draw(10)]
+            s = [" ", " ", " ", " ", "  ", "\t", "\n", " ;k\n", "\r\n", "\t\t", ";glued comment\n", ";\r\n",
+                 "\n\n", ";x (\n\t"][t.draw(14)]
             if ";" in s:
                 flags.add("comment")
             if "\t" in s:
